@@ -64,6 +64,24 @@ K3_PROBES = [
 ]
 
 
+def function_boundary():
+    """`stop` and `volgende` act on a loop of the CURRENT function only: inside a function literal written in a loop body
+    they are misplaced (SyntaxError before anything runs) unless the function has a loop of its own around them; only
+    `antwoord` leaves a function.  Every nesting of loop / block / als / function between the loop and the exit."""
+    out = []
+    for ex in ("stop", "volgende"):
+        wraps = ["%s", "als ja { %s }", "{ %s }", "als nee { 1 } anders als ja { %s }", "functie() { %s }()", "stel q = 1; %s"]
+        for w in wraps:
+            inner = w % ex
+            out.append(("fn-boundary-misplaced", "stel n = 0; zolang n < 3 { n += 1; stel f = functie() { %s }; f() }; n" % inner))
+            out.append(("fn-boundary-misplaced", "stel n = 0; zolang n < 3 { n += 1; functie() { %s }() }; n" % inner))
+            out.append(("fn-boundary-misplaced", "functie buiten() { stel n = 0; zolang n < 3 { n += 1; functie binnen() { %s }; binnen() }; n }; buiten()" % inner))
+            out.append(("fn-boundary-misplaced", "print(\"voor\"); zolang ja { functie g() { %s }; stop }; 1" % inner))
+            # with a loop of its own the same exit is fine, and it ends the INNER loop only
+            out.append(("fn-boundary-own-loop", "stel n = 0; zolang n < 3 { n += 1; stel f = functie() { stel k = 0; zolang k < 5 { k += 1; %s }; k }; n = n + f() }; n" % inner))
+    return out
+
+
 def rng_wrap(k, inner):
     forms = ["als ja { %s };", "{ %s };", "stel q%d = 0; zolang q%d < 2 { q%d += 1; %s };" % (k, k, k, "%s"), "als nee { 1 } anders { %s };"]
     return forms[k % len(forms)] % inner
@@ -79,6 +97,7 @@ def run(res, tier, rng, table_diffs=()):
     for _ in range(300 if tier == "quick" else 8000):
         src, _ = gen.random_program(rng.fork(), size=rng.range(20, 70))
         cases.append(("random", src))
+    cases += function_boundary()
 
     def residue(label, src, r):
         st = diff.stats(r["impl"])
